@@ -6,7 +6,7 @@ import OVM.Refine.LookupLemmas
   through histories.  This is the ORDERED statement (`Loop`, literally `Props.C08.ClosedLoop`; the definition is repeated
   here so that Props/C08.lean and Props/C10.lean can import this file: OVM/Refine/GlobalLoops.lean imports Props/C08 and
   OVM/Tet/TetBuild.lean imports Props/C10); `Global.FaceCyc` (OVM/Refine/FaceCycStep.lean) is its unordered shadow
-  (`faceCyc_of_faceLoop` in OVM/Refine/ReachMirror.lean).  Same proof shape as FaceCycStep.lean:
+  (`cyc_of_loop` in OVM/Refine/ReachMirror.lean).  Same proof shape as FaceCycStep.lean:
 
   * `stable_faceLoop : HexAll.Stable FaceLoop` — the ten atomic definition changes of OVM/Hex/Stable.lean, by the renaming
     transport `loop_map`; hence every delete_*, swap_*, collect_garbage, mode switch in every deletion mode keeps it.
@@ -14,8 +14,9 @@ import OVM.Refine.LookupLemmas
     `add_face(halfedges)` with topology check only accepts one (`faceLoopOk_iff_loop`); the UNCHECKED
     `add_face(halfedges)`, `set_face` and `set_edge` can break it and get the side condition `LoopOK`.
   * `faceLoop_step`, `faceLoop_run`, `faceLoop_reachable`; Boolean forms for `decide`.
-  * consequences on `FaceLoop` states: both halffaces of a live face are closed halfedge cycles in the sense of the
-    lookup lemmas (`hfCyclic_of_faceLoop`).
+  * `addFaceV_loop`: the kernel-level form of `HexAll.addFaceV_spec` — the new face is a closed loop v0→v1→…→v0.
+  * consequences on `FaceLoop` states: both halffaces of a live face are closed loops (`loop_oppFace`,
+    `hfLoop_of_faceLoop`), i.e. closed halfedge cycles in the sense of the lookup lemmas (`hfCyclic_of_faceLoop`).
   The few halfedge lemmas of OVM/Tet/TetStable.lean that are needed are repeated (namespace `LoopSt`) for the import
   reason above.  Proof-only file.
 -/
